@@ -110,8 +110,25 @@ func (m *Model) declaredProps(s S, file string, out map[string]propAt, depth int
 	}
 	if props, ok := s["properties"].(map[string]any); ok {
 		for k, ps := range props {
-			if _, dup := out[k]; !dup {
+			prev, dup := out[k]
+			if !dup {
 				out[k] = propAt{ps, file}
+				continue
+			}
+			// declared again by a later branch: the keywords of all branches apply; a default given only by the later one is the property's default
+			pm, ok1 := prev.s.(map[string]any)
+			nm, ok2 := ps.(map[string]any)
+			if ok1 && ok2 {
+				if _, has := pm["default"]; !has {
+					if d, has := nm["default"]; has {
+						cp := map[string]any{}
+						for kk, vv := range pm {
+							cp[kk] = vv
+						}
+						cp["default"] = d
+						out[k] = propAt{cp, prev.file}
+					}
+				}
 			}
 		}
 	}
